@@ -1,8 +1,11 @@
 package main
 
 import (
+	"compress/gzip"
 	"encoding/json"
 	"fmt"
+	"net"
+	"net/http"
 	"strings"
 	"time"
 
@@ -123,7 +126,87 @@ func exerciseV1Token(tok string, s *signer, seed []byte, report func(op, panic s
 }
 
 // v1 payload mutations: rich version-1 claims of each kind, every single-node mutation, signed payload-only
+// c11TokenServer: the bundled version-1 library fetches an import's token when it is a URL; whoever signs the account
+// token chooses the URL and therefore the server.  A loopback server that answers in every way HTTP allows: a body
+// with and without announced length, chunked, close-delimited, compressed, empty, huge announced length, errors.
+func c11TokenServer(body string) (base string, paths []string, stop func()) {
+	ln, err := net.Listen("tcp", "127.0.0.1:0")
+	if err != nil {
+		return "", nil, func() {}
+	}
+	mux := http.NewServeMux()
+	mux.HandleFunc("/plain", func(w http.ResponseWriter, r *http.Request) { w.Write([]byte(body)) })
+	mux.HandleFunc("/chunked", func(w http.ResponseWriter, r *http.Request) {
+		w.Write([]byte(body[:len(body)/2]))
+		if f, ok := w.(http.Flusher); ok {
+			f.Flush()
+		}
+		w.Write([]byte(body[len(body)/2:]))
+	})
+	mux.HandleFunc("/gzip", func(w http.ResponseWriter, r *http.Request) {
+		w.Header().Set("Content-Encoding", "gzip")
+		zw := gzip.NewWriter(w)
+		zw.Write([]byte(body))
+		zw.Close()
+	})
+	mux.HandleFunc("/empty", func(w http.ResponseWriter, r *http.Request) {})
+	mux.HandleFunc("/nocontent", func(w http.ResponseWriter, r *http.Request) { w.WriteHeader(204) })
+	mux.HandleFunc("/error", func(w http.ResponseWriter, r *http.Request) { http.Error(w, "no", 500) })
+	mux.HandleFunc("/garbage", func(w http.ResponseWriter, r *http.Request) { w.Write([]byte("\x00\xff not a token \n..")) })
+	mux.HandleFunc("/big", func(w http.ResponseWriter, r *http.Request) { w.Write([]byte(strings.Repeat("A", 3<<20))) })
+	mux.HandleFunc("/shortbody", func(w http.ResponseWriter, r *http.Request) {
+		// announces more than it sends, then the connection is cut
+		if hj, ok := w.(http.Hijacker); ok {
+			conn, buf, err := hj.Hijack()
+			if err == nil {
+				buf.WriteString("HTTP/1.1 200 OK\r\nContent-Length: 100000\r\n\r\nshort")
+				buf.Flush()
+				conn.Close()
+			}
+		}
+	})
+	mux.HandleFunc("/http10", func(w http.ResponseWriter, r *http.Request) {
+		if hj, ok := w.(http.Hijacker); ok {
+			conn, buf, err := hj.Hijack()
+			if err == nil {
+				buf.WriteString("HTTP/1.0 200 OK\r\n\r\n" + body)
+				buf.Flush()
+				conn.Close()
+			}
+		}
+	})
+	mux.HandleFunc("/redirect", func(w http.ResponseWriter, r *http.Request) { http.Redirect(w, r, "/redirect", 302) })
+	srv := &http.Server{Handler: mux}
+	go srv.Serve(ln)
+	return "http://" + ln.Addr().String(), []string{"/plain", "/chunked", "/gzip", "/empty", "/nocontent", "/error", "/garbage", "/big", "/shortbody", "/http10", "/redirect", "/missing"},
+		func() { srv.Close() }
+}
+
 func runC11V1(c *Ctx, g *valGen, seedU []byte, replacements []interface{}, report func(tok, note string) func(op, p string)) {
+	// import tokens given as URLs of a server under the signer's control
+	{
+		exporter, importer := newSigner("account"), newSigner("account")
+		act := v1.NewActivationClaims(importer.pub)
+		act.ImportSubject, act.ImportType = "i1", v1.Stream
+		body, _ := act.Encode(exporter.kp)
+		base, paths, stop := c11TokenServer(body)
+		if base == "" {
+			c.count("loopback_server_unavailable")
+		}
+		for _, p := range paths {
+			ac := v1.NewAccountClaims(importer.pub)
+			ac.Imports.Add(&v1.Import{Subject: "i1", Account: exporter.pub, Type: v1.Stream, Token: base + p})
+			tok, err := ac.Encode(importer.kp)
+			if err != nil {
+				continue
+			}
+			exerciseV1Token(tok, importer, seedU, report(tok, "v1 account whose import token is the URL "+p+" of a loopback server"))
+			c.sum.Evaluations++
+			c.sum.ImplChecks++
+			c.count("v1compat_import_token_url")
+		}
+		stop()
+	}
 	bases := 2
 	if c.thorough() {
 		bases = 8
